@@ -444,7 +444,7 @@ def oracle_eigs(c, obs):
             q = x / r
     noise = 1.1e-16 * scale * n
     acc = max(1e-6, 1e3 * noise / r) if r else None      # normalising a remainder of norm r amplifies rounding noise by noise/r
-    if r is not None and r > 100.0 * c["tol"] * aq1 and r > 1e3 * noise and acc <= 3e-2:
+    if r is not None and r > 100.0 * c["tol"] * aq1 and r > 1e3 * noise and r >= 1e-4 * aq1 and acc <= 3e-2:   # coupling well above rounding level (see c15_lib)
         lam = np.linalg.eigvalsh(S)
         if len(w) != n:
             bad.append(f"lanczos_eigs with max_iters >= n returned {len(w)} Ritz values for an operator of size {n} although the tolerance "
